@@ -138,6 +138,25 @@ def reorder_mappings(root):
     return rec(root)
 
 
+def relayout(root, rng):
+    """copy of *root* in which every DataWrapper wraps the same logical data in
+    another memory layout (structurally equal in content mode)"""
+    import pytato as pt
+    from pytato.array import DataWrapper
+    from .srecipe import layout_array
+    cur = root
+    changed = 0
+    for v in [v for v in iter_nodes(root) if isinstance(v, DataWrapper)]:
+        if not isinstance(v.data, np.ndarray):
+            continue
+        lay = rng.choice(["C", "F", "T", "strided"])
+        nd = layout_array(np.array(v.data, copy=True), lay)
+        repl = _clone_with(v, {"data": nd})
+        cur = rebuild(cur, v, replacement=repl)
+        changed += 1
+    return cur, changed
+
+
 # {{{ mutation sites
 
 def _node_types():
@@ -164,6 +183,8 @@ def sites(root):
                 out.append((v, "data:element"))
                 out.append((v, "data:dtype-same-bytes"))
                 out.append((v, "data:shape-same-bytes"))
+                if v.data.ndim >= 2 and not v.data.flags.c_contiguous:
+                    out.append((v, "data:memory-bytes-same"))
     return out
 
 
@@ -345,6 +366,14 @@ def mutate_site(root, node, fname, rng, counter):
             if tgt is None or d.size == 0:
                 raise Ineffective("no same-size dtype")
             nd = np.ascontiguousarray(d).view(tgt).copy()
+        elif fname == "data:memory-bytes-same":
+            # another logical array whose C-order bytes are this array's bytes
+            # in MEMORY order (a key built from memory-order bytes collides)
+            if not d.flags.f_contiguous:
+                raise Ineffective("not Fortran-contiguous")
+            nd = d.ravel(order="F").reshape(d.shape).copy()
+            if np.array_equal(nd, d):
+                raise Ineffective("symmetric data")
         else:
             if d.size < 2:
                 raise Ineffective("too small to reshape")
